@@ -45,7 +45,7 @@ SITES = {
     # instructions that take a TEXT-SOURCE do not repeat the table -> result after [act] is 'maybe'
     'contents_of': dict(default='home', acc=_READ, post=[], maybe_post=['result'], abs_ok=True, dest=False),
     # FILES-SOURCE dir-contents-of PATH: the manual gives no relativity table at all
-    'dir_contents_of': dict(default=None, acc=[], post=[], maybe_post=[], maybe=_READ, abs_ok=True, dest=False),
+    'dir_contents_of': dict(default=None, acc=[], post=[], maybe_post=[], maybe=KINDS, abs_ok=True, dest=False),
     'existing': dict(default='home', acc=_READ, post=[], maybe_post=[], abs_ok=True, dest=False),
     'exe': dict(default='home', acc=_READ, post=[], maybe_post=[], abs_ok=True, dest=False),
     'act_exe': dict(default='act-home', acc=_READ, post=[], maybe_post=[], abs_ok=True, dest=False),
